@@ -28,7 +28,9 @@ CONFIGS = {
     "all-rel": (["--features", "translation,extra_codecs,serde"], False),
     "def-rel": ([], False),
 }
-QUICK_CONFIGS = ["all-dbg", "def-dbg"]
+# quick: both feature sets with debug assertions on, plus the all-features build with debug assertions and overflow
+# checks off (code may branch on cfg!(debug_assertions): profile-specific behaviour is part of several quantifiers)
+QUICK_CONFIGS = ["all-dbg", "def-dbg", "all-rel"]
 THOROUGH_CONFIGS = ["all-dbg", "def-dbg", "all-rel", "def-rel"]
 
 
